@@ -599,6 +599,12 @@ Loop:
 			return ovsdb.OperationResult{}
 		}
 
+		if timeout == nil {
+			// no other transaction can run while this one is in progress, so
+			// the outcome can not change however long we wait: answer
+			// instead of blocking the server for ever
+			break Loop
+		}
 		if timeout != nil {
 			// TODO(trozet): this really shouldn't just break and loop on a time interval
 			// Really this client handler should pause, wait for another handler to update the DB
